@@ -127,6 +127,15 @@ fn scripts() -> Vec<(&'static str, usize, u64, bool, Vec<Event>)> {
             ],
         ),
         (
+            // observation (not a theorem clause): advance from a non-open latest generation does not conflict
+            // with a concurrent owner change of that generation; its expected-owner pre-check is stale at commit
+            "advance-over-owner-change-of-sealed-latest",
+            2,
+            1,
+            false,
+            vec![Do(0, adv(0, 1, None, 1)), Do(0, seal(0, 0, 1)), Refresh(1), Do(0, own(0, 0, 2)), Do(1, adv(0, 2, Some(1), 1))],
+        ),
+        (
             "K1-trim-hole",
             1,
             1,
